@@ -6,6 +6,7 @@ and targeter errors; any initial/max worker counts; no depth bound.
 -/
 import Vegeta.Proofs.AttackInv
 import Vegeta.Proofs.AttackLive
+import Vegeta.Proofs.AttackAcceptSound
 import Vegeta.Model.Pump
 import Vegeta.Extracted.Facts
 namespace Vegeta.Props.C02
@@ -117,6 +118,31 @@ theorem stop_seen_at_send (hpc : s.pc = .trySend ∨ s.pc = .blockSend) (hst : s
     (∃ s', step s .seeStop = some s' ∧ s'.pc = .closeTicks) ∧ step s .spawn = none := by
   refine ⟨⟨{ s with pc := .closeTicks }, by simp [step, hpc, hst], rfl⟩, ?_⟩
   simp [step, hst]
+
+/-! #### the conformance check composes with the theorems -/
+
+/-- **What the controlled-schedule check establishes**: when the Lean acceptor accepts a trace
+recorded on the real `Attack` (the driver answers `ok`), the initial observation and every
+observation after a command equal the observable projection (`obsOf`) of some *reachable* state —
+a state of which every theorem of this file, of C03, C04 and C05 holds. -/
+theorem conformance_accepts_only_reachable (workers maxW : Nat) (o0 : Obs) (tr : List (Cmd × CmdObs × Obs))
+    (h : acceptRun workers maxW o0 tr = none) :
+    (∃ s, Reachable workers maxW 0 s ∧ obsOf s false = o0) ∧
+    ∀ x ∈ tr, ∃ s sc, Reachable workers maxW 0 s ∧ obsOf s sc = x.2.2 :=
+  acceptRun_explained workers maxW o0 tr h
+
+/-- … in particular an accepted trace never shows a delivered sequence number twice, nor one
+that was not started. -/
+theorem accepted_trace_delivers_started_hits_once (workers maxW : Nat) (o0 : Obs) (tr : List (Cmd × CmdObs × Obs))
+    (h : acceptRun workers maxW o0 tr = none) : ∀ x ∈ tr, x.2.2.delivered.Nodup := by
+  intro x hx
+  obtain ⟨s, sc, hr, ho⟩ := (acceptRun_explained workers maxW o0 tr h).2 x hx
+  rw [← ho]
+  simp only [obsOf]
+  have hn := (delivered_nodup_and_started hr).1
+  unfold List.Nodup at hn ⊢
+  rw [List.pairwise_reverse]
+  exact hn.imp (fun h => fun e => h e.symm)
 
 /-! #### the shape `Stop` had before the repair: check, then close — two callers can both win -/
 
